@@ -4,6 +4,13 @@ Definition k_flow_compute_kek : pfun :=
      pf_body := [
     SIf (PCmp "==" (PName "secret_algorithm") (PStr [68; 72])) [
       SAssign ["dh_pub_key"] (PCall "FFCDHKey.unpack" [(PName "public_key")]);
+      SAssign ["dh_params"] (PCall "FFCDHParameters.unpack" [(POr (PName "secret_parameters") (PBytes []))]);
+      SIf (PCmp "!=" (PTuple [(PAttr (PName "dh_pub_key") "key_length"); (PAttr (PName "dh_pub_key") "field_order"); (PAttr (PName "dh_pub_key") "generator")]) (PTuple [(PAttr (PName "dh_params") "key_length"); (PAttr (PName "dh_params") "field_order"); (PAttr (PName "dh_params") "generator")])) [
+        SRaise "ValueError"
+      ] [];
+      SIf (PNot (PAnd (PCmp "<" (PInt 1) (PAttr (PName "dh_pub_key") "public_key")) (PCmp "<" (PAttr (PName "dh_pub_key") "public_key") (PBin "-" (PAttr (PName "dh_pub_key") "field_order") (PInt 1))))) [
+        SRaise "ValueError"
+      ] [];
       SAssign ["shared_secret_int"] (PCall "pow" [(PAttr (PName "dh_pub_key") "public_key"); (PCall "int.from_bytes/byteorder" [(PName "private_key"); (PStr [98; 105; 103])]); (PAttr (PName "dh_pub_key") "field_order")]);
       SAssign ["shared_secret"] (PMeth "to_bytes/byteorder" (PName "shared_secret_int") [(PAttr (PName "dh_pub_key") "key_length"); (PStr [98; 105; 103])]);
       SAssign ["secret_hash_algorithm"] (PCall "hashes.SHA256" [])
